@@ -14,7 +14,7 @@ import (
 func init() {
 	register(&Rule{
 		Name:     "UNSIGNEDWIDEN",
-		Doc:      "in every kind-switch clause whose labels are only unsigned 32-bit kinds (UINT32, FIX32/FIXED32, Uint32Kind, Fixed32Kind) no conversion widens a signed 32-bit operand (static type int32) directly to a wider integer or float type: `int(n)` with n int32 sign-extends values >= 2^31; `int(uint32(n))` is the accepted form",
+		Doc:      "in every kind-switch clause whose labels are only unsigned 32-bit kinds (UINT32, FIX32/FIXED32, Uint32Kind, Fixed32Kind) no conversion widens a signed 32-bit operand (static type int32) directly to a wider integer or float type: `int(n)` with n int32 sign-extends values >= 2^31; `int(uint32(n))` is the accepted form; mirror clause for thrift's signed I16 / I32: in a clause for that label only, no uint16 / uint32 operand (what BigEndian.Uint16/32 return) is widened directly to a wider integer",
 		Configs:  "NP",
 		Floor:    map[string]int{"N": 6, "P": 6},
 		Controls: 1,
@@ -24,6 +24,7 @@ func init() {
 
 func runUnsignedWiden(rc *RuleCtx) {
 	unsigned32 := map[string]bool{"UINT32": true, "FIX32": true, "FIXED32": true, "Uint32Kind": true, "Fixed32Kind": true}
+	runSignedWiden(rc)
 	for _, ks := range rc.W.kindSwitches(2) {
 		info := ks.pkg.TypesInfo
 		for _, cl := range ks.clauses {
@@ -77,6 +78,65 @@ func runUnsignedWiden(rc *RuleCtx) {
 			}
 			if !bad {
 				rc.add(nil, ks.fnName, anchor, cl.pos, "discharged", "no signed 32-bit value is widened directly in this unsigned clause", false)
+			}
+		}
+	}
+}
+
+// runSignedWiden: the mirror clause for thrift's signed i16 / i32: inside a clause for I16 (I32)
+// only, an unsigned 16-bit (32-bit) value — what binary.BigEndian.Uint16/Uint32 return — is not
+// widened directly to a wider integer: -1 would come back as 65535 (4294967295). (thrift's BYTE is
+// deliberately left out: the library presents it as unsigned throughout.)
+func runSignedWiden(rc *RuleCtx) {
+	want := map[string]types.BasicKind{"I16": types.Uint16, "I32": types.Uint32}
+	for _, ks := range rc.W.kindSwitches(2) {
+		if !strings.HasSuffix(ks.tagType, "thrift.Type") {
+			continue
+		}
+		info := ks.pkg.TypesInfo
+		for _, cl := range ks.clauses {
+			if len(cl.labels) != 1 {
+				continue
+			}
+			src, ok := want[cl.labels[0].name]
+			if !ok {
+				continue
+			}
+			rc.Examined++
+			anchor := "case " + cl.labels[0].name
+			bad := false
+			for _, st := range cl.body {
+				ast.Inspect(st, func(n ast.Node) bool {
+					ce, ok := n.(*ast.CallExpr)
+					if !ok || len(ce.Args) != 1 {
+						return true
+					}
+					tv, ok := info.Types[ce.Fun]
+					if !ok || !tv.IsType() {
+						return true
+					}
+					to, ok1 := tv.Type.Underlying().(*types.Basic)
+					at := info.TypeOf(ce.Args[0])
+					if at == nil {
+						return true
+					}
+					from, ok2 := at.Underlying().(*types.Basic)
+					if !ok1 || !ok2 || from.Kind() != src {
+						return true
+					}
+					if atv, ok := info.Types[ce.Args[0]]; ok && atv.Value != nil {
+						return true
+					}
+					switch to.Kind() {
+					case types.Int, types.Int64, types.Uint, types.Uint64, types.Float64:
+						bad = true
+						rc.add(nil, ks.fnName, anchor, ce.Pos(), "violated", "`"+types.ExprString(ce)+"` widens an unsigned "+from.Name()+" inside a clause for thrift's signed "+cl.labels[0].name+": negative values come back as large positive ones; convert through the signed type of the same width first", true)
+					}
+					return true
+				})
+			}
+			if !bad {
+				rc.add(nil, ks.fnName, anchor, cl.pos, "discharged", "no unsigned value of the label's width is widened directly in this signed clause", false)
 			}
 		}
 	}
